@@ -799,25 +799,6 @@ impl World for Nft {
     }
 }
 
-struct Filter<'a> {
-    r: &'a mut Runner,
-    only: String,
-}
-impl<'a> Filter<'a> {
-    fn world(&mut self, w: &Nft, b: &Bounds) {
-        if self.only.is_empty() || self.only == w.name {
-            let mut b = b.clone();
-            if !self.only.is_empty() {
-                b.wall = std::time::Duration::from_secs(3000);
-            }
-            self.r.world(w, &b);
-        }
-    }
-    fn report(&mut self) -> Option<&mut vh::report::Report> {
-        self.r.report()
-    }
-}
-
 fn main() {
     main_with(
         "C10",
@@ -825,47 +806,41 @@ fn main() {
         "level-BFS over histories of mint (sequential / explicit ids {0,1,7,u32::MAX} incl. re-mint of a burned explicit id / batch_mint n in {1,2,3,5}) / transfer (to self, to another account, by a non-owner, of a non-existent id) / transfer_from and burn_from (by the approved-for-all operator; thorough: also after a token-level approve) / burn, on the first, second, middle, last-1, last id and the item(32)- and bucket(3200)-edge ids of every batch, 3 accounts, on the real nft-sequential-minting / nft-enumerable / nft-consecutive examples and Base::mint / Enumerable::non_sequential_mint wrappers; consecutive seeds with an initial batch of 31/32/33 (quick) and 3199/3200/3201/32000 (thorough); after every accepted step: owner_of and token_uri for every id in 0..next_id+2 (large seeds: every id within 2 of a touched id, batch edge, adjacent multiple of 32, any multiple of 3200), balance of every account = ids owned, enumerable: total_supply + global and per-owner lists as exact sets with every index once and the index past the end refused; non-trivial = distinct storage state reached through >=1 accepted call",
         |tier: Tier, r: &mut Runner| {
             let th = tier == Tier::Thorough;
-            let mint_to: Vec<usize> = if th { vec![0, 1, 2] } else { vec![0, 1] };
-            let small = |flavour: Flavour, name: &'static str| Nft {
+            let world = |flavour: Flavour, name: &'static str, seeds: Vec<Seed>| Nft {
                 flavour,
                 thorough: th,
                 name,
-                seeds: if matches!(flavour, Flavour::BaseSeq | Flavour::EnumSeq) { vec![Seed::Empty, Seed::CounterAt(u32::MAX - 2)] } else { vec![Seed::Empty] },
-                mint_to: mint_to.clone(),
+                seeds,
+                mint_to: if th { vec![0, 1, 2] } else { vec![0, 1] },
                 batch_sizes: vec![1, 2, 3, 5],
                 rich: th,
                 lean: false,
             };
-            let d: usize = std::env::var("C10_D").ok().and_then(|x| x.parse().ok()).unwrap_or(tier.pick(4, 5));
-            let only = std::env::var("C10_ONLY").unwrap_or_default();
-            let r = &mut Filter { r, only };
-            let wall = tier.pick(12, 110);
-            r.world(&small(Flavour::BaseSeq, "nft-base-sequential"), &Bounds::new(d, wall));
-            r.world(&small(Flavour::BaseExplicit, "nft-base-explicit-ids"), &Bounds::new(d, wall));
-            r.world(&small(Flavour::EnumSeq, "nft-enumerable-sequential"), &Bounds::new(d, wall));
-            r.world(&small(Flavour::EnumExplicit, "nft-enumerable-explicit-ids"), &Bounds::new(d, wall));
-            r.world(&small(Flavour::Consecutive, "nft-consecutive"), &Bounds::new(d, wall));
+            let counter_seeds = || vec![Seed::Empty, Seed::CounterAt(u32::MAX - 2)];
+            // small id spaces: every id queried after every step
+            r.world(&world(Flavour::BaseSeq, "nft-base-sequential", counter_seeds()), &Bounds::new(6, tier.pick(3, 25)));
+            r.world(&world(Flavour::BaseExplicit, "nft-base-explicit-ids", vec![Seed::Empty]), &Bounds::new(6, tier.pick(3, 15)));
+            r.world(&world(Flavour::EnumSeq, "nft-enumerable-sequential", counter_seeds()), &Bounds::new(6, tier.pick(5, 50)));
+            r.world(&world(Flavour::EnumExplicit, "nft-enumerable-explicit-ids", vec![Seed::Empty]), &Bounds::new(5, tier.pick(7, 55)));
+            r.world(&world(Flavour::Consecutive, "nft-consecutive", vec![Seed::Empty]), &Bounds::new(4, tier.pick(13, 75)));
             if th {
-                let mut deep = small(Flavour::Consecutive, "nft-consecutive-deep");
+                let mut deep = world(Flavour::Consecutive, "nft-consecutive-deep", vec![Seed::Empty]);
                 deep.mint_to = vec![0, 1];
                 deep.rich = false;
                 deep.lean = true;
-                r.world(&deep, &Bounds::new(d + 1, wall));
+                r.world(&deep, &Bounds::new(5, 240));
             }
-            let seeded = |name: &'static str, sizes: Vec<u32>| Nft {
-                flavour: Flavour::Consecutive,
-                thorough: th,
-                name,
-                seeds: sizes.into_iter().map(Seed::Batch).collect(),
-                mint_to: vec![0, 1],
-                batch_sizes: vec![1, 2, 3, 5],
-                rich: false,
-                lean: false,
+            // seeds whose initial batch straddles an item (32) / bucket (3200) edge or is maximal
+            let seeded = |name: &'static str, sizes: Vec<u32>, mint_to: Vec<usize>| {
+                let mut w = world(Flavour::Consecutive, name, sizes.into_iter().map(Seed::Batch).collect());
+                w.mint_to = mint_to;
+                w.rich = false;
+                w
             };
-            r.world(&seeded("nft-consecutive-item-edge", vec![31, 32, 33]), &Bounds::new(std::env::var("C10_DE").ok().and_then(|x| x.parse().ok()).unwrap_or(tier.pick(3, 4)), wall));
+            r.world(&seeded("nft-consecutive-item-edge", vec![31, 32, 33], tier.pick(vec![1], vec![0, 1])), &Bounds::new(3, tier.pick(12, 30)));
             if th {
-                r.world(&seeded("nft-consecutive-bucket-edge", vec![3199, 3200, 3201]), &Bounds::new(3, wall));
-                r.world(&seeded("nft-consecutive-max-batch", vec![32000]), &Bounds::new(2, wall));
+                r.world(&seeded("nft-consecutive-bucket-edge", vec![3199, 3200, 3201], vec![0, 1]), &Bounds::new(3, 40));
+                r.world(&seeded("nft-consecutive-max-batch", vec![32000], vec![0, 1]), &Bounds::new(2, 10));
             }
             if let Some(rep) = r.report() {
                 let mut ok = vec![
